@@ -137,7 +137,9 @@ class ExpandedTraceback:
         # Locate the error on the innermost line of the student's own files,
         # even when it surfaced inside a mocked builtin or a library
         student_frames = [frame for frame in frames if frame[0] in show_filenames]
-        self.line_number = (student_frames or frames)[-1][1]
+        located_frame = (student_frames or frames)[-1]
+        # Inside a section, report the line of the original file
+        self.line_number = located_frame[1] + line_offsets.get(located_frame[0], 0)
         self.original_code_lines = original_code_lines
         self.student_files = student_files
 
